@@ -2,6 +2,7 @@
    the OCaml driver stays a dumb parser/printer. *)
 From Coq Require Import NArith List Bool String.
 From DBG Require Import Interop.Val Spec.Dna Packed.KmerModel Algo.KmerHist Interop.DispatchExts Interop.DispatchSeq.
+From DBG Require Interop.DispatchBBHash.
 Import ListNotations.
 Open Scope N_scope.
 
@@ -117,8 +118,14 @@ Definition generic_spec_ops : list (string * handler) :=
 
 Definition prefix2 (op : string) : string := substring 0 2 op.
 
-Definition dispatch (op : string) (v : val) : option val :=
-  if String.eqb (prefix2 op) "k." then d_kmer op v
-  else if String.eqb (substring 0 4 op) "s.k." then d_spec_kmer op v
-  else if String.eqb (prefix2 op) "e." || String.eqb (substring 0 4 op) "s.e." then d_exts op v
-  else match run_table generic_spec_ops op v with Some r => Some r | None => d_seq op v end.
+(* sub-dispatchers are tried in order; each returns None for an operation it does not know *)
+Definition dispatchers : list (string -> val -> option val) :=
+  [ d_kmer; d_spec_kmer; d_exts; run_table generic_spec_ops; d_seq;
+    DispatchBBHash.d_bbhash
+  ].
+Fixpoint first_some (ds : list (string -> val -> option val)) (op : string) (v : val) : option val :=
+  match ds with
+  | [] => None
+  | d :: r => match d op v with Some x => Some x | None => first_some r op v end
+  end.
+Definition dispatch (op : string) (v : val) : option val := first_some dispatchers op v.
